@@ -17,6 +17,7 @@ script: dict stage -> action, or callable(ctx, stage) -> action.
   actions: ('ok',)                         the normal positive reply for that stage
            ('reply', '450'[, 'text'])      a well-formed reply with that code
            ('raw', b'...')                 arbitrary bytes (malformed replies)
+           ('raw', b'...', 'close')        arbitrary bytes, then close the connection
            ('close',)                      close the connection instead of replying
            ('stall',)                      never reply (block until the peer goes away)
            ('delay', seconds, action)      sleep, then perform action
@@ -136,6 +137,8 @@ class Downstream(object):
             raise ValueError('unknown action %r' % (a,))
         f.write(data)
         f.flush()
+        if k == 'raw' and len(a) > 2 and a[2] == 'close':
+            raise EOFError()
         return a
 
     @staticmethod
